@@ -57,7 +57,7 @@ def make_cfg(rng, k):
         sm.sun_alt_cut = float(math.radians(rng.uniform(-30, 20)))
         sm.moon_alt_cut = float(math.radians(rng.uniform(-20, 30)))
         sm.moon_min_phase_angle_cut = float(math.radians(rng.uniform(0, 180)))
-    return c
+    return core.validated(c, "C13 target configuration")
 
 
 def ref_dark(sun, moon, phase, sc, mc, pc):
